@@ -271,7 +271,7 @@ fn weird_coef(rng: &mut Rng) -> f64 {
 
 pub fn run_case(ctx: &Ctx, case: u64, ev: &mut Ev) {
     let mut rng = Rng::derive(ctx.seed, "C19", case);
-    rng.big = ctx.tier == crate::Tier::Thorough && rng.chance(0.2);
+    rng.big = crate::draw_big(ctx, &mut rng);
     if rng.chance(0.7) {
         run_matrix(case, &mut rng, ev);
     } else {
